@@ -247,6 +247,9 @@ class FunctionNode(CallableMixin, HyperNode):
         origin = get_origin(return_hint)
         if origin is tuple:
             args = get_args(return_hint)
+            if len(args) == 2 and args[1] is Ellipsis:
+                # tuple[T, ...]: every element, hence every output, is a T
+                return dict.fromkeys(self.data_outputs, args[0])
             if len(args) == len(self.data_outputs):
                 return dict(zip(self.data_outputs, args, strict=True))
 
